@@ -151,7 +151,12 @@ func oracle(c qcase.Case) (evid.Info, error) {
 		info.Skip = "translate-rejected"
 		return info, nil
 	case errOpt != nil:
-		// whether a query is translated at all must not depend on the optimiser either
+		// whether a query is translated at all must not depend on the optimiser either; shapes that C03 lists
+		// (whatever the status of its finding) are left to it
+		if id := qcase.C03ExcludedBy(model, func(string) bool { return true }); id != "" {
+			info.Skip = "only-optimised-rejected(" + id + ")"
+			return info, nil
+		}
 		return info, fmt.Errorf("only the optimised translation of %q is rejected (%v); the translation without optimisation succeeds", c.Query, errOpt)
 	case errUn != nil:
 		return info, fmt.Errorf("only the translation WITHOUT optimisation rejects %q (%v); with optimisation DAWGS translates it to\n%s", c.Query, errUn, optRes.SQL)
